@@ -325,14 +325,14 @@ func init() {
 			Old: guard,
 			New: "\t\tif includedNames[name] > recursionDepth {\n\t\t\treturn \"\", fmt.Errorf(\"including template with name %s: %w\", name, ErrExceededIncludeRecursion)\n\t\t}\n\t\tincludedNames[name]++\n"},
 		Mutant{Prop: "C19", Name: "r5-include-counter-plain-lookup-test-inverted", File: sprig,
-			Why: "`<` instead of `>`: includes are rejected while the counter is below the limit and allowed without bound above it",
-			Old: guard,
-			New: "\t\tif includedNames[name] < recursionDepth {\n\t\t\treturn \"\", fmt.Errorf(\"including template with name %s: %w\", name, ErrExceededIncludeRecursion)\n\t\t}\n\t\tincludedNames[name]++\n",
+			Why:    "`<` instead of `>`: includes are rejected while the counter is below the limit and allowed without bound above it",
+			Old:    guard,
+			New:    "\t\tif includedNames[name] < recursionDepth {\n\t\t\treturn \"\", fmt.Errorf(\"including template with name %s: %w\", name, ErrExceededIncludeRecursion)\n\t\t}\n\t\tincludedNames[name]++\n",
 			Expect: []string{reentry}},
 		Mutant{Prop: "C19", Name: "r5-include-counter-plain-lookup-never-incremented", File: sprig,
-			Why: "the counter is tested but never counted up: the bound is never reached",
-			Old: guard,
-			New: "\t\tif includedNames[name] > recursionDepth {\n\t\t\treturn \"\", fmt.Errorf(\"including template with name %s: %w\", name, ErrExceededIncludeRecursion)\n\t\t}\n",
+			Why:    "the counter is tested but never counted up: the bound is never reached",
+			Old:    guard,
+			New:    "\t\tif includedNames[name] > recursionDepth {\n\t\t\treturn \"\", fmt.Errorf(\"including template with name %s: %w\", name, ErrExceededIncludeRecursion)\n\t\t}\n",
 			Expect: []string{reentry}},
 	)
 }
